@@ -992,12 +992,12 @@ where
             let (s, t, w, s2, t2, w2) = (rff(s)?, rff(t)?, vus(w)?, rff(s2)?, rff(t2)?, vus(w2)?);
             job!(StrictOps::<K>::law_spider_fusion(&s, &t, &w, &s2, &t2, &w2))
         }
-        "law.identity_is_spider:eq" => {
+        "law.identity_is_spider" => {
             args!(x);
             let x = vus(x)?;
             job!(StrictOps::<K>::law_identity_is_spider(&x))
         }
-        "law.twist_is_spider:eq" => {
+        "law.twist_is_spider" => {
             args!(x, y);
             let (x, y) = (vus(x)?, vus(y)?);
             job!(StrictOps::<K>::law_twist_is_spider(&x, &y))
@@ -1134,7 +1134,7 @@ where
         }
 
         // ---- lax: histories, category ops, JSON -------------------------------------------------
-        "lax.edit" => {
+        "lax.edit" | "lax.quot" => {
             args!(start, ops);
             let (start, ops) = (rlf(start)?, steps(ops)?);
             job!(lax::replay_history(&start, &ops))
@@ -1230,6 +1230,21 @@ where
             args!(f);
             let f = roh(f)?;
             job!(lax::law_to_from_strict(&f))
+        }
+        "law.tensor_assign_eq:lax-eq" => {
+            args!(f, g);
+            let (f, g) = (rlf(f)?, rlf(g)?);
+            job!(lax::law_tensor_assign_eq(&f, &g))
+        }
+        "law.append_eq:lax-eq" => {
+            args!(f, g);
+            let (f, g) = (rlf(f)?, rlf(g)?);
+            job!(lax::law_append_eq(&f, &g))
+        }
+        "law.coproduct_assign_eq:lax-eq" => {
+            args!(f, g);
+            let (f, g) = (rlf(f)?, rlf(g)?);
+            job!(lax::law_coproduct_assign_eq(&f, &g))
         }
         "law.from_to_strict:lax-eq" => {
             args!(f);
